@@ -9,12 +9,15 @@ import (
 	"database/sql/driver"
 	"fmt"
 	"io"
+	"net"
 	"strings"
 	"sync"
 	"sync/atomic"
+	"syscall"
 
 	"github.com/jmoiron/sqlx"
 	"github.com/metrico/cloki-config/config"
+	"github.com/metrico/qryn/reader/dbRegistry"
 	"github.com/metrico/qryn/reader/model"
 	"github.com/metrico/qryn/reader/utils/dsn"
 )
@@ -102,6 +105,8 @@ type Session struct {
 	// SchemaFault, if set, is asked before each schema lookup ("settings" = the version rows, "show-tables"); a
 	// non-nil error is what the database answers instead
 	SchemaFault func(kind string) error
+	// Down: the database cannot be reached (new connections are refused, pings and statements on open ones fail)
+	Down atomic.Bool
 }
 
 var (
@@ -120,15 +125,26 @@ func (drv) Open(name string) (driver.Conn, error) {
 	if s == nil {
 		return nil, fmt.Errorf("verifch: unknown session %q", name)
 	}
+	if s.Down.Load() {
+		return nil, &net.OpError{Op: "dial", Net: "tcp", Err: syscall.ECONNREFUSED}
+	}
 	return &conn{s}, nil
 }
 func (*conn) Prepare(q string) (driver.Stmt, error) { return nil, fmt.Errorf("verifch: no prepare") }
 func (*conn) Close() error                          { return nil }
 func (*conn) Begin() (driver.Tx, error)             { return nil, fmt.Errorf("verifch: no tx") }
-func (c *conn) Ping(ctx context.Context) error      { return nil }
+func (c *conn) Ping(ctx context.Context) error {
+	if c.s.Down.Load() {
+		return driver.ErrBadConn
+	}
+	return nil
+}
 
 func (c *conn) QueryContext(ctx context.Context, q string, args []driver.NamedValue) (driver.Rows, error) {
 	s := c.s
+	if s.Down.Load() {
+		return nil, driver.ErrBadConn
+	}
 	if len(args) > 0 {
 		// what the real driver would put on the wire (client-side binding)
 		wire, berr := Bind(q, args)
@@ -240,19 +256,26 @@ func (s *Session) Conn(ctx context.Context) (*sql.Conn, error)              { re
 func (s *Session) Begin() (*sql.Tx, error)                                  { return s.db.Begin() }
 func (s *Session) Close()                                                   {}
 
+// Registry lets a check switch the reader between sessions; node selection and health checks are those of the
+// production registry (reader/dbRegistry: one static registry per session in use).
 type Registry struct {
-	mu sync.Mutex
-	d  *model.DataDatabasesMap
+	mu   sync.Mutex
+	d    *model.DataDatabasesMap
+	real model.IDBRegistry
+}
+
+func (r *Registry) current() model.IDBRegistry {
+	r.mu.Lock()
+	defer r.mu.Unlock()
+	return r.real
 }
 
 func (r *Registry) GetDB(ctx context.Context) (*model.DataDatabasesMap, error) {
-	r.mu.Lock()
-	defer r.mu.Unlock()
-	return r.d, nil
+	return r.current().GetDB(ctx)
 }
 func (r *Registry) Run()        {}
 func (r *Registry) Stop()       {}
-func (r *Registry) Ping() error { return nil }
+func (r *Registry) Ping() error { return r.current().Ping() }
 
 // Use switches the registry to another session (e.g. another schema). The reader gets the session behind the
 // wrapper it uses in production (reader/utils/dsn.StableSqlxDBWrapper: reconnects after a failed statement), not
@@ -261,6 +284,7 @@ func (r *Registry) Use(s *Session, cluster string) {
 	r.mu.Lock()
 	defer r.mu.Unlock()
 	r.d = &model.DataDatabasesMap{Config: &config.ClokiBaseDataBase{Node: s.Name, Name: "db", ClusterName: cluster}, Session: s.Wrapped()}
+	r.real = dbRegistry.NewStaticDBRegistry(map[string]*model.DataDatabasesMap{s.Name: r.d})
 }
 
 // Wrapped returns the session behind the production connection wrapper (one wrapper per session).
